@@ -708,6 +708,8 @@ pub fn contract_named_bits<C: Ctx>(cx: &mut C) {
 #[cfg(not(kani))]
 pub use crate::intermediate::encoding_rules::per_visible::verif_hook::{hook_compare_optional, hook_default_unsigned, hook_fold_constraint_set, hook_range_from_constraint, hook_range_from_element, hook_intersect_single_and_range, hook_union_optional, hook_union_single_and_range};
 pub fn hook_needs_unnesting(ty: &ASN1Type) -> bool { crate::generator::rasn::Rasn::needs_unnesting(ty) }
+pub fn hook_named_lookup(tld: &crate::intermediate::ToplevelDefinition, type_name: Option<&String>, identifier: &String) -> Option<ASN1Value> { tld.get_distinguished_or_enum_value(type_name, identifier) }
+pub fn hook_has_enum_value(tld: &crate::intermediate::ToplevelDefinition, type_name: Option<&String>, identifier: &String) -> bool { tld.has_enum_value(type_name, identifier) }
 pub fn hook_apply_tagenv_type(ty: &mut ASN1Type, env: &crate::intermediate::TaggingEnvironment) { ty.apply_tagging_environment(env) }
 pub fn hook_apply_tagenv_tld(tld: &mut crate::intermediate::ToplevelDefinition, env: &crate::intermediate::TaggingEnvironment) { tld.apply_tagging_environment(env) }
 pub fn hook_tagenv_add(a: &crate::intermediate::TaggingEnvironment, b: &crate::intermediate::TaggingEnvironment) -> crate::intermediate::TaggingEnvironment { a + b }
